@@ -289,9 +289,6 @@ package core
 //@   loop 1 invariant[C07,C13] prefix: forall j int :: 0 <= j && j <= rangeindex ==> n.Branches.Branches[j] != nil
 
 // DefaultPatternParser (the function literal assigned to the package variable).
-//@ extern encoding/json.Unmarshal(data, v) returns (err)
-//@   modifies v
-
 //@ func init$1 returns x, err
 //@   safety C07
 //@   ensures[C13] none: (syntax == "none" || syntax == "") ==> x == p && err == nil
